@@ -31,4 +31,13 @@ def SortKeysOnly (lt : Order) : Prop :=
   ∀ a b a' b', a.key = a'.key → a.d = a'.d → a.i = a'.i → b.key = b'.key → b.d = b'.d → b.i = b'.i →
     lt a b = lt a' b'
 
+/-- the comparison does not look at the hash back-pointer (`hash_index`) of a heap tag.
+    Every ordering function of the library has this property (it is implied by `SortKeysOnly`); without it
+    a capacity doubling, which re-homes every entry in the hash map, could invalidate the heap order. -/
+class IgnoresHidx (lt : Order) : Prop where
+  eq : ∀ (a b : HTag) (h h' : Nat), lt { a with hidx := h } { b with hidx := h' } = lt a b
+
+theorem SortKeysOnly.ignoresHidx {lt : Order} (h : SortKeysOnly lt) : IgnoresHidx lt :=
+  ⟨fun a b _ _ => h _ _ a b rfl rfl rfl rfl rfl rfl⟩
+
 end CimbaModel
